@@ -680,6 +680,24 @@ pub fn gen_c07_sites(tier: &str, rng: &mut Rng, emit: &mut Emit) {
             emit.case(40, l(vec![a(41), bytes(b"OUT_"), l(vec![inner])]));
         }
     }
+    // the named objects again with every shape of name (1, 2, 3 and more segments, rooted or not: the name's own prefix and
+    // segment-count bytes are part of the body the PkgLength covers), across the 63/64 and 4095/4096 width changes
+    let shapes: [&[u8]; 8] = [b"ABCD", b"\\ABCD", b"AB_0.CD_1", b"\\AB_0.CD_1", b"_SB_.PCI0.LPCB", b"\\_SB_.PCI0.LPCB",
+        b"A___.B___.C___.D___.E___", b"\\A___.B___.C___.D___.E___.F___.G___.H___"];
+    for (si, sh) in shapes.iter().enumerate() {
+        let sizes2: Vec<usize> = (0..=70usize).chain(4040..=4100).collect();
+        for &k in &sizes2 {
+            if tier != "thorough" && k > 100 && (k + si) % 2 == 1 {
+                continue;
+            }
+            let f = l(vec![a(11), bytes(&rng.bytes(k))]);
+            emit.case(40, l(vec![a(41), bytes(sh), l(vec![f.clone()])]));
+            emit.case(40, l(vec![a(42), bytes(sh), l(vec![f.clone()])]));
+            emit.case(40, l(vec![a(43), bytes(sh), l(vec![f.clone()])]));
+            emit.case(40, l(vec![a(44), bytes(sh), a(rng.below(8)), a(rng.below(2)), l(vec![f.clone()])]));
+            emit.case(40, l(vec![a(45), bytes(sh), a(rng.val(8)), a(rng.val(16)), l(vec![f.clone()])]));
+        }
+    }
     emit.case(40, l(vec![a(30), a(4), l(vec![a(4), a(32), a(70_000)])]));
     emit.case(40, l(vec![a(30), a(4), l(vec![a(1)])]));
     // resource templates: n 12-byte descriptors plus j 8-byte ones, totals across 63, 255, 4095 and 65535 bytes
